@@ -47,8 +47,9 @@ type (
 // NewPeriodicalExecutor returns a PeriodicalExecutor with given interval and container.
 func NewPeriodicalExecutor(interval time.Duration, container TaskContainer) *PeriodicalExecutor {
 	executor := &PeriodicalExecutor{
-		// buffer 1 to let the caller go quickly
-		commander:   make(chan any, 1),
+		// unbuffered, a producer waits for the confirmation of its own batch only,
+		// with a buffer another producer could take that confirmation.
+		commander:   make(chan any),
 		interval:    interval,
 		container:   container,
 		confirmChan: make(chan lang.PlaceholderType),
